@@ -133,6 +133,8 @@ def main():
         lines.append(f"  clause={v['clause']}: {v['what'][:400]}")
     if pres:
         for d in pres["degraded"]:
+            if d.get("ledger") != "proved":
+                continue  # was not proved on the unchanged tree either: listed under not_proved in the evidence
             lines.append(f"DEGRADED property={prop} function={d['contract']} reason={d['status']}: {str(d['reason'])[:200]}")
     # ---- evidence
     ev = build_evidence(prop, cfg, tier, a.seed, pres, bres, len(new), known_hit, time.time() - t0, fault)
